@@ -521,14 +521,14 @@ def run(ctx, replay):
         ctx.cov["final_state_behaviours"] = len(ex_b)
         ctx.log("as-is state graph (open deviations on): %d states, %d distinct final states, %.1fs" % (
             g["distinct"], len(ex_b), g["wall"]))
-        behs = stratified(ctx.rng, ex_b, 30000 if thorough else 1000)
+        behs = stratified(ctx.rng, ex_b, 20000 if thorough else 1000)
         if not gc["ok"]:
             raise vlib.Infra("core behaviour generation failed: %s %s" % (gc["invariant"], gc["error"]))
         core_b = behaviours_from(gc)
         ctx.cov["core_final_state_behaviours"] = len(core_b)
         ctx.log("core alphabet, one command deeper: %d states, %d (final state, event kinds) classes, %.1fs" % (
             gc["distinct"], len(core_b), gc["wall"]))
-        behs += stratified(ctx.rng, core_b, 40000 if thorough else 5000)
+        behs += stratified(ctx.rng, core_b, 25000 if thorough else 5000)
         if not gf["ok"]:
             raise vlib.Infra("focused behaviour generation failed: %s %s" % (gf["invariant"], gf["error"]))
         fb = behaviours_from(gf)
@@ -538,7 +538,7 @@ def run(ctx, replay):
             raise vlib.Infra("spelling-focused behaviour generation failed: %s %s" % (gsp["invariant"], gsp["error"]))
         sp_b = behaviours_from(gsp)
         ctx.cov["spelling_behaviours"] = len(sp_b)
-        behs += stratified(ctx.rng, sp_b, 20000 if thorough else 2500)
+        behs += stratified(ctx.rng, sp_b, 10000 if thorough else 2500)
         behs += vlib.sample(ctx.rng, crashy, 40 if thorough else 3)
         behs += vlib.sample(ctx.rng, [b for b in fb if not b["crash"]], 400 if thorough else 40)
         for gi in gs:
@@ -644,10 +644,10 @@ def run(ctx, replay):
     ctx.cov["violated_predicates"] = preds
     ctx.cov["rule"] = ("behaviours = complete client scripts + fault plans of Session.tla printed by TLC "
                        "with the deviations of the open findings enabled: (a) one shortest behaviour per distinct final state of "
-                       "the state graph (quick: <=5 commands, stratified sample of 1000; thorough: <=6 commands, 30000); (b) "
+                       "the state graph (quick: <=5 commands, stratified sample of 1000; thorough: <=6 commands, 20000); (b) "
                        "over the core alphabet HELO/MAIL ok,null/RCPT ok/DATA ok/RSET/drop one behaviour per distinct (final "
                        "state, set of event kinds: commands, DATA reply classes, target calls with ok/fail) (quick: <=6 commands, "
-                       "stratified sample of 5000; thorough: <=7 commands, 40000); (c) focused corners: nested MAIL with an idle source bucket; LMTP with one recipient in two spellings "
+                       "stratified sample of 5000; thorough: <=7 commands, 25000); (c) focused corners: nested MAIL with an idle source bucket; LMTP with one recipient in two spellings "
                        "across the transactions of a session (<=8 commands); (d) "
                        "-simulate with VERIF_SEED up to 12 commands; de-duplicated; stratified = round-robin over protocol x "
                        "mode x targets x routing x deviations x fault placement; non-trivial = "
